@@ -240,7 +240,7 @@ func readUserFile(base, u string) []byte {
 }
 
 // c14Backdate rewrites only the timestamp field of the user's record to 90 days ago.
-func c14Backdate(base, u string) {
+func c14Backdate(rng *rand.Rand, base, u string) {
 	p := userPath(base, u)
 	b, err := os.ReadFile(p)
 	if err != nil {
